@@ -610,9 +610,13 @@ Section Loop22.
     f_rcv (fb s) = [] /\ evb2 s = delivered22 /\ wab2 s = rts22 :: dtfs22 0 ns ++ [eoms22].
   (* the end: nothing queued, no session on either side, the session number is back in the pool, p delivered once, the wire
      carried RTS, the data frames of all segments in order, and the end-of-message status *)
+  Definition restA22 (a : node22) : Prop :=
+    f_mpg a = [] /\ n_timers (base a) = [] /\ n_cmdt_iv (base a) = None /\ n_subs (base a) = n_subs (base A0) /\
+    n_cas (base a) = n_cas (base A0) /\ n_maxp (base a) = n_maxp (base A0) /\ f_bam a = f_bam A0.
   Definition S_Done (s : net22) : Prop :=
     pa s = [] /\ pb s = [] /\ f_snd (fa s) = [] /\ f_rcv (fa s) = [] /\ f_snd (fb s) = [] /\ f_rcv (fb s) = [] /\
-    f_rts (fa s) = repeat true tp22_pool_rts /\ evb2 s = delivered22 /\ wab2 s = rts22 :: dtfs22 0 ns ++ [eoms22].
+    f_rts (fa s) = repeat true tp22_pool_rts /\ evb2 s = delivered22 /\ wab2 s = rts22 :: dtfs22 0 ns ++ [eoms22] /\
+    (t0 <= fclk s /\ restA22 (fa s) /\ envB22 (fb s)).
 
   Lemma wend22_facts e : (e < ns)%nat ->
     1 <= cnt22 e <= g0 /\ Z.of_nat (wend22 e) = Z.of_nat e + cnt22 e /\ (e < wend22 e <= ns)%nat.
@@ -758,11 +762,14 @@ Section Loop22.
     intros ((Hc & Ea & Eb) & Hpa & Hpb & (nx & w & d & Hs) & Hr & Hev & Hw).
     rewrite (step22_idle s) by assumption. rewrite Hc.
     destruct (job22_A_finished (fa s) nx w d Ea Hs) as (ra & Hja). rewrite Hja.
-    destruct Eb as (Bs & Bm & Bt & _).
+    pose proof Eb as Eb0. destruct Eb as (Bs & Bm & Bt & _).
     rewrite (job22_idle (fb s) t0 Hr Bm Bs Bt). cbn [txs flat_map evs filter].
-    destruct Ea as (Ar & _).
+    destruct Ea as (Ar & Am & At & Ai & Asub & Acas & Amx & Abam & Arts).
     unfold S_Done. cbn [fa fb pa pb fclk evb2 wab2 f_snd f_rcv f_rts set_frts set_fsnd].
-    repeat split; try assumption; try reflexivity; rewrite ?app_nil_r; assumption.
+    split; [reflexivity|]. split; [reflexivity|]. split; [reflexivity|]. split; [exact Ar|]. split; [exact Bs|]. split; [exact Hr|].
+    split; [reflexivity|]. split; [rewrite app_nil_r; exact Hev|]. split; [rewrite app_nil_r; exact Hw|].
+    split; [destruct (_ && _ && _); lia|]. split; [|exact Eb0].
+    unfold restA22. destruct (fa s) as [ab ? ? ? ? ? ?]. repeat split; assumption.
   Qed.
 
   (* ---- from the RTS to the end *)
@@ -826,11 +833,50 @@ Theorem closed_loop22_delivers prio sa dest dp pf p t0 A0 B0 :
 Proof.
   intros H1 H2 H3 H4 H5 H6 H7 HA HB pv ns.
   destruct (closed_loop22 prio sa dest dp pf p t0 A0 B0 H1 H2 H3 H4 H5 H6 H7 HA HB) as (j & H). exists j.
-  destruct H as (Q1 & Q2 & Q3 & Q4 & Q5 & Q6 & Q7 & Q8 & Q9).
+  destruct H as (Q1 & Q2 & Q3 & Q4 & Q5 & Q6 & Q7 & Q8 & Q9 & _).
   repeat split; try assumption.
   rewrite Q9. unfold rts22, dtfs22. f_equal. f_equal. apply map_ext_in. intros k Hk.
   apply in_seq in Hk.
   destruct (dtf22_some prio sa dest dp pf p A0 B0 k ltac:(fold ns; lia)) as (seg' & E). rewrite E. reflexivity.
+Qed.
+
+(* T10.19: ... and the FD pair is again as it was: the final state meets the premises of the theorem itself *)
+Theorem closed_loop22_restores prio sa dest dp pf p t0 A0 B0 :
+  0 <= prio < 8 -> 0 <= sa < 255 -> 0 <= dest < 255 -> 0 <= pf < 240 -> 0 <= dp < 2 -> 60 < len p < 16777216 -> 0 < t0 ->
+  f_snd A0 = [] /\ f_rcv A0 = [] /\ f_mpg A0 = [] /\ n_timers (base A0) = [] /\ n_cmdt_iv (base A0) = None /\
+    accepts (base A0) sa = true /\ 1 <= n_maxp (base A0) < 256 /\ f_rts A0 = repeat true tp22_pool_rts ->
+  f_snd B0 = [] /\ f_rcv B0 = [] /\ f_mpg B0 = [] /\ n_timers (base B0) = [] /\ accepts (base B0) dest = true /\ 1 <= n_maxp (base B0) ->
+  let pv := dp * 65536 + pf * 256 in
+  let ns := ((length p + 59) / 60)%nat in
+  exists j, let s := steps22 j (net22_send (net22_0 A0 B0 t0) dp pf dest prio sa p) in
+    (pa s = [] /\ pb s = [] /\ t0 <= fclk s /\
+     evb2 s = deliveries (base B0) 7 pv sa dest p /\
+     wab2 s = tp22_rts prio sa dest 0 pv (len p) (Z.of_nat ns) (Z.min (n_maxp (base A0)) (Z.of_nat ns))
+              :: map (fun k => match dt_frame sa dest 0 (Z.of_nat k + 1) (row p k) with
+                               | Some (fr, _) => fr | None => tp22_eom_status sa dest 0 (len p) (Z.of_nat ns) pv end) (seq 0 ns)
+              ++ [tp22_eom_status sa dest 0 (len p) (Z.of_nat ns) pv]) /\
+    (f_snd (fa s) = [] /\ f_rcv (fa s) = [] /\ f_mpg (fa s) = [] /\ n_timers (base (fa s)) = [] /\ n_cmdt_iv (base (fa s)) = None /\
+     accepts (base (fa s)) sa = true /\ 1 <= n_maxp (base (fa s)) < 256 /\ f_rts (fa s) = repeat true tp22_pool_rts) /\
+    (f_snd (fb s) = [] /\ f_rcv (fb s) = [] /\ f_mpg (fb s) = [] /\ n_timers (base (fb s)) = [] /\ accepts (base (fb s)) dest = true /\
+     1 <= n_maxp (base (fb s))) /\
+    n_maxp (base (fa s)) = n_maxp (base A0) /\ n_subs (base (fb s)) = n_subs (base B0) /\ n_cas (base (fb s)) = n_cas (base B0).
+Proof.
+  intros H1 H2 H3 H4 H5 H6 H7 HA HB pv ns.
+  destruct (closed_loop22 prio sa dest dp pf p t0 A0 B0 H1 H2 H3 H4 H5 H6 H7 HA HB) as (j & H). exists j.
+  destruct H as (Q1 & Q2 & Q3 & Q4 & Q5 & Q6 & Q7 & Q8 & Q9 & Qc & Ra & Eb). cbn zeta.
+  destruct Ra as (Am & At & Ai & Asub & Acas & Amx & Abam). destruct Eb as (Bs & Bm & Bt & Bsub & Bcas & Bmx & _).
+  destruct HA as (_ & _ & _ & _ & _ & Ha & HmA & _). destruct HB as (_ & _ & _ & _ & Hb & HmB).
+  assert (HaA : accepts (base (fa (steps22 j (net22_send (net22_0 A0 B0 t0) dp pf dest prio sa p)))) sa = true)
+    by (unfold accepts, ecu_acceptable in *; rewrite Asub, Acas; exact Ha).
+  assert (HaB : accepts (base (fb (steps22 j (net22_send (net22_0 A0 B0 t0) dp pf dest prio sa p)))) dest = true)
+    by (unfold accepts, ecu_acceptable in *; rewrite Bsub, Bcas; exact Hb).
+  split.
+  { split; [exact Q1|]. split; [exact Q2|]. split; [exact Qc|]. split; [exact Q8|].
+    rewrite Q9. unfold rts22, dtfs22. f_equal. f_equal. apply map_ext_in. intros k Hk.
+    apply in_seq in Hk.
+    destruct (dtf22_some prio sa dest dp pf p A0 B0 k ltac:(fold ns; lia)) as (seg' & E). rewrite E. reflexivity. }
+  split; [repeat split; try assumption; lia|]. split; [repeat split; try assumption; lia|].
+  repeat split; assumption.
 Qed.
 
 Example closed_loop22_instance :
